@@ -25,6 +25,8 @@ type Step struct {
 	Nw   int    `json:"nw"`  // predicted number of frames put on the wire by the step
 	Err  string `json:"err"` // predicted result of the last completion in the step ("parked": none)
 	N    int    `json:"n"`   // real-socket scenarios: payload length of a submitted message / repeat count
+	Then int    `json:"then"` // call: follow-ups - the completion callback, if it reports success, issues the same call again with then-1
+	Glue int    `json:"glue"` // peer: 1 = the frame is put into the same segment as the item before it (if that is still unread)
 }
 
 type opts struct {
@@ -32,10 +34,11 @@ type opts struct {
 	variant int
 	sidbase int // added to the scenario number when picking variants (replay of a single scenario)
 	seed    int64
+	writers int // write-side calls the driver lets be in flight together
 }
 
 func parseMode(mode string, seed int64) opts {
-	o := opts{split: "frame", seed: seed}
+	o := opts{split: "frame", seed: seed, writers: 2}
 	for _, kv := range strings.Split(mode, ",") {
 		p := strings.SplitN(kv, "=", 2)
 		if len(p) != 2 {
@@ -48,6 +51,8 @@ func parseMode(mode string, seed int64) opts {
 			o.variant, _ = strconv.Atoi(p[1])
 		case "sidbase":
 			o.sidbase, _ = strconv.Atoi(p[1])
+		case "writers":
+			o.writers, _ = strconv.Atoi(p[1])
 		}
 	}
 	return o
@@ -66,6 +71,8 @@ type session struct {
 	open   map[int]string  // calls in flight (driver's ledger)
 	feed   func(rdItem)    // makes peer output available to the client
 	wlenOf func(t int) int // length of submitted payloads (nil: small)
+	ownTok bool            // payload tokens of writes are 100 + the driver's own call id (schedules with follow-up calls)
+	glue   bool            // the peer event being fed joins the segment of the item before it
 }
 
 var sharedIO *sonic.IO
@@ -107,7 +114,9 @@ var validCloses = []struct {
 	reason string
 }{{1000, ""}, {1001, "bye"}, {3000, "x"}, {1000, "done"}, {4999, ""}, {1011, "oops"}}
 
-func (s *session) peer(step int, k string, t int) {
+func (s *session) peer(step int, k string, t int, glue bool) {
+	s.glue = glue
+	defer func() { s.glue = false }()
 	var b []byte
 	c := 0
 	switch k {
@@ -166,7 +175,7 @@ func (s *session) peer(step int, k string, t int) {
 		panic("unknown peer event " + k)
 	}
 	s.log.Peer(k, t, c)
-	s.feed(rdItem{data: b})
+	s.feed(rdItem{data: b, glue: glue})
 }
 
 // ---- what reads surface ------------------------------------------------------
@@ -212,21 +221,31 @@ var closeReasons = map[int]string{1000: "", 1001: "going away", 4000: "app"}
 
 // ---- local calls -------------------------------------------------------------
 
-// admissible: the schedule generator keeps one read and one write-side call
-// in flight at a time; if the code under test is slower than the model
-// predicted (drift), a call that would break that assumption is skipped.
+// admissible: the schedule generator keeps one read and a bounded number of
+// write-side calls in flight at a time; if the code under test is slower than
+// the model predicted (drift), a call that would break that assumption is
+// skipped (two reads in flight would be the harness breaking the contract).
 func (s *session) admissible(api string) bool {
 	rd := api == "AsyncNextFrame" || api == "AsyncNextMessage" || api == "NextFrame" || api == "NextMessage"
+	n := 0
 	for _, a := range s.open {
 		ard := a == "AsyncNextFrame" || a == "AsyncNextMessage"
 		if rd == ard {
-			return false
+			n++
 		}
 	}
-	return true
+	if rd {
+		return n == 0
+	}
+	return n < s.o.writers
 }
 
-func (s *session) call(api string, t, c int) {
+func (s *session) call(api string, t, c int) { s.callThen(api, t, c, 0) }
+
+// callThen issues one call. then > 0: the completion callback, when it reports
+// success, issues the same call again (with then-1) before it returns - a
+// write chained from the write callback, a read re-armed from the read callback.
+func (s *session) callThen(api string, t, c, then int) {
 	s.nextID++
 	id := s.nextID
 	ws := s.ws
@@ -234,7 +253,10 @@ func (s *session) call(api string, t, c int) {
 		s.open = map[int]string{}
 	}
 	s.open[id] = api
-	log := &doneTracker{Log: s.log, s: s}
+	if s.ownTok && (api == "AsyncWrite" || api == "AsyncWriteFrame") {
+		t = 100 + id
+	}
+	log := &doneTracker{Log: s.log, s: s, then: then, c: c}
 	if api == "Close" || api == "AsyncClose" {
 		if c == 0 {
 			c = 1000
@@ -293,15 +315,23 @@ func (s *session) call(api string, t, c int) {
 	}
 }
 
-// doneTracker keeps the driver's ledger of calls in flight.
+// doneTracker keeps the driver's ledger of calls in flight and issues the
+// follow-up of a call from inside its completion callback.
 type doneTracker struct {
 	*Log
-	s *session
+	s    *session
+	then int
+	c    int
 }
 
 func (d *doneTracker) Done(api string, id int, err error) {
 	delete(d.s.open, id)
 	d.Log.Done(api, id, err)
+	if err == nil && d.then > 0 && !d.Log.muted {
+		then := d.then
+		d.then = 0 // a callback invoked twice (a defect) does not fork the schedule
+		d.s.callThen(api, 0, d.c, then-1)
+	}
 }
 
 // wlen: length of a submitted payload (overridden by the C17 drivers)
@@ -339,7 +369,7 @@ func RunInline(a tr.Args) error {
 			log.stepBegin()
 			switch g.Op {
 			case "peer":
-				s.peer(i, g.K, g.T)
+				s.peer(i, g.K, g.T, false)
 			case "call":
 				c := g.C
 				if g.Api == "Close" || g.Api == "AsyncClose" {
@@ -419,12 +449,13 @@ func RunDeferred(a tr.Args) error {
 		if err != nil {
 			return err
 		}
+		s.ownTok = true
 		overlap := false
 		for i, g := range steps {
 			log.stepBegin()
 			switch g.Op {
 			case "peer":
-				s.peer(i, g.K, g.T)
+				s.peer(i, g.K, g.T, g.Glue == 1)
 			case "call":
 				c := g.C
 				if g.Api == "AsyncClose" {
@@ -437,7 +468,7 @@ func RunDeferred(a tr.Args) error {
 				if s.tp.WriteParked() {
 					overlap = true
 				}
-				s.call(g.Api, g.T, c)
+				s.callThen(g.Api, g.T, c, g.Then)
 			case "env":
 				log.Env(g.K)
 				ok := false
